@@ -6,6 +6,15 @@ import os
 VERIF = os.path.dirname(os.path.dirname(os.path.abspath(__file__)))
 
 CHECKS = {
+    "C10": {
+        "text": "Explicit-state breadth-first search over run histories: {2 groups} x {new instance, reused instance} x {run method} x {same second, "
+        "next instant, skip} over a ladder of virtual instants crossing 12:59:59->13:00:00 and midnight; depth 3 (thorough 4, plus all six "
+        "run methods to depth 2). After every run: exactly one new run directory under the run's own group, all earlier runs "
+        "byte-identical, names sort chronologically, :last/:first resolve to the extreme run for three prefix kinds.",
+        "design": "3 / C10",
+        "note": "trusted: the virtual clock (datetime replaced in the 13 csvpath modules that import it); canonical-state merge argument in DESIGN.md",
+        "technique": "explicit-state BFS over run histories under a virtual clock on the real CsvPaths, invariants on every transition",
+    },
     "C11": {
         "text": "Explicit-state breadth-first search over operation histories {write source, add_named_file, remove, new instance} (13 operations, "
         "2 names x 2 source files x 3 contents) to depth 5 (thorough 7) on the real FileManager, models/refstore.Files stepped in "
